@@ -131,6 +131,12 @@ func (e *WAs) As(target interface{}) bool {
 	return false
 }
 
+// Addr is a net.Addr.
+type Addr string
+
+func (a Addr) Network() string { return "tcp" }
+func (a Addr) String() string  { return string(a) }
+
 // WNoCmp is a prefix-style wrapper with Unwrap; a value type that is not
 // comparable (it holds a slice).
 type WNoCmp struct {
